@@ -67,6 +67,8 @@ let dispatch (fn : string) : jv -> jv = match fn with
   | "string_to_key" -> string_to_key_j
   | "des3_random_to_key" -> des3_random_to_key_j
   | "key_from_password" -> key_from_password_j
+  | "replay_run" -> replay_run_j
+  | "replay_conc" -> replay_conc_j
   | _ -> failwith ("unknown model function " ^ fn)
 
 let () =
